@@ -102,6 +102,16 @@ Proof. exact plain_select_shape. Qed.
 Print Assumptions C13_select_clause_order.
 
 
+(* the same for EVERY UPDATE statement of the generic / MySQL / SQL Server / Oracle form: WITH, UPDATE <table>, joins, SET, FROM, WHERE *)
+Theorem C13_update_clause_order : forall (q : query) (c : ctx) (p : pz) (s : str) (p' : pz),
+  generic_update the_rens q c p = Ok (s, p') ->
+  exists sw st sj ss sf swh,
+    s = sw ++ L "UPDATE " ++ st ++ sj ++ ss ++ sf ++ swh /\
+    kw_or_empty (L "WITH ") sw /\ kw_or_empty [32] sj /\ (exists r, ss = L " SET " ++ r) /\ kw_or_empty (L " FROM ") sf /\ kw_or_empty (L " WHERE ") swh.
+Proof. intros q c. exact (generic_update_shape the_rens q c). Qed.
+Print Assumptions C13_update_clause_order.
+
+
 (* ---- the specification on examples ---- *)
 Example C13_wellformed_examples :
   wellformed SQLITE BGeneric (L "WITH c AS (SELECT ""a"" FROM ""t"") SELECT DISTINCT ""a"",COUNT(*) FROM ""t"" JOIN ""u"" ON ""t"".""a""=""u"".""a"" LEFT JOIN ""v"" USING (""a"") WHERE ""b""=1 GROUP BY ""a"" HAVING COUNT(*)>1 ORDER BY ""a"" LIMIT 1 OFFSET 2 FOR UPDATE") = Some true /\
